@@ -15,6 +15,8 @@
 //   xci r segs tx ty                Circle, lazy translate
 //   xbool <op> i j                  CrossSection boolean (eager in this library)
 //   xtr i tx ty                     CrossSection translate (lazy)
+//   xstrips n pitch len width k     n thin parallel diagonal strips (4n edges, all edge boxes overlapping), with a
+//                                   pending Scale(2^k): big enough to take the 2-D Boolean's BVH broad phase
 //   ctx                             a fresh ExecutionContext
 // Thread ops (every op yields one answer word):
 //   q <kind> i        kind in numtri vol bbox status mesh genus  on the SHARED pool.m[i]
@@ -29,6 +31,9 @@
 //   xq <kind> i       kind in area nv bounds polys nc   on the SHARED pool.x[i]
 //   xcp i / xas i     copy / assign from pool.x[i], polys hash
 //   xex <op> i j t    pool.x[i] op pool.x[j].Translate(t,0); polys hash
+//   xbig <op> i j d   pool.x[i] op pool.x[j].Translate(d,d): polygons hash, compared STRICTLY (pool strips only carry
+//                     power-of-two pending scales, so composing the translate is exact whatever was materialised first)
+//   xoff i delta      pool.x[i].Offset(delta, Miter): polygons hash
 //   xtol i            pool.x[i].GetTolerance()    (answer "-": value legitimately depends on
 //                     whether the lazy transform was materialised before; see report)
 //   xext i h          Manifold::Extrude(pool.x[i].ToPolygons(), h) mesh hash
@@ -182,7 +187,16 @@ void Setup(Pool& p, const std::vector<std::string>& ops) {
       p.x.push_back(CrossSection::Square(vec2(D(1), D(2))).Translate(vec2(D(3), D(4))));
     else if (w[0] == "xci")
       p.x.push_back(CrossSection::Circle(D(1), I(2)).Translate(vec2(D(3), D(4))));
-    else if (w[0] == "xbool")
+    else if (w[0] == "xstrips") {
+      Polygons polys;
+      const double sq = 0.70710678118654752;
+      for (int k = 0; k < I(1); ++k) {
+        const vec2 o(k * D(2), 0.0), d(D(3) * sq, D(3) * sq), nrm(-D(4) * sq, D(4) * sq);
+        polys.push_back({o, o + d, o + d + nrm, o + nrm});
+      }
+      const double sc = std::ldexp(1.0, I(5));
+      p.x.push_back(CrossSection(polys).Scale(vec2(sc, sc)));
+    } else if (w[0] == "xbool")
       p.x.push_back(p.x[I(2)].Boolean(p.x[I(3)], Op(w[1])));
     else if (w[0] == "xtr")
       p.x.push_back(p.x[I(1)].Translate(vec2(D(2), D(3))));
@@ -276,6 +290,16 @@ void RunProgram(Pool& p, const std::vector<std::string>& ops, bool cancelEnabled
     } else if (w[0] == "xex") {
       CrossSection e = p.x[I(2)].Boolean(p.x[I(3)].Translate(vec2(D(4), 0)), Op(w[1]));
       a = XSigHash(e);
+    } else if (w[0] == "xbig") {
+      CrossSection e = p.x[I(2)].Boolean(p.x[I(3)].Translate(vec2(D(4), D(4))), Op(w[1]));
+      Polygons out = e.ToPolygons();
+      Hash h;
+      h.dbl(e.Area());
+      h.u64(e.NumVert());
+      a = PolysHash(out) + h.str().substr(0, 6);
+    } else if (w[0] == "xoff") {
+      CrossSection e = p.x[I(1)].Offset(D(2), JoinType::Miter);
+      a = PolysHash(e.ToPolygons());
     } else if (w[0] == "xtol") {
       volatile double t = p.x[I(1)].GetTolerance();
       (void)t;
